@@ -51,6 +51,10 @@ def reorder_manifest(rng, text):
     return "\n".join(out + tail) + "\n"
 
 
+def kind_of(k):
+    return k if isinstance(k, str) else k[0]
+
+
 def main(tier, seed, replay=None):
     run = Run(PROP, tier, seed, "proof")
     rng = random.Random(seed)
@@ -76,6 +80,10 @@ def main(tier, seed, replay=None):
     for ln in (0x7FFE, 0x7FFF):
         text, builds = "rule r\n  command = x\nbuild out: r\n", [["out"]]
         cases.append((text, builds, None, [(0, ["n" * ln], 9)]))
+    # witness of the known finding F7 (format limits): 65536 discovered dependencies in one record
+    cases.append(("rule r\n  command = x\nbuild out: r\n", [["out"]], None, [(0, ["n" * 0x8000], 7)]))
+    if tier == "thorough":
+        cases.append(("rule r\n  command = x\nbuild out: r\n", [["out"]], None, [(0, ["d%d" % i for i in range(65536)], 7)]))
     if replay:
         rp = json.load(open(replay))["replay"]
         cases = [(rp["manifest"], rp["builds"], unhexs(rp["file_hex"]) if rp.get("file_hex") else None, [tuple(x) for x in rp["writes"]])]
@@ -130,7 +138,10 @@ def main(tier, seed, replay=None):
         p = parse_res(r)
         where = {"manifest": t, "builds": b, "file_hex": hexs(f), "writes": [list(w) for w in ws][:6], "kind": str(k), "result": r[:300]}
         if p["kind"] != "ok":
-            run.report_failure(None, "a log written by n2 does not load: %s" % r[:160], where)
+            big = any(len(wd) >= 65536 or len(b[wb]) >= 32768 for wb, wd, wh in ws) if kind_of(k) == "same" else any(len(wd) >= 65536 for _, wd, _ in ws)
+            if big:
+                where = dict(where, writes="(one record with %d dependencies)" % max(len(wd) for _, wd, _ in ws), file_hex=hexs(f)[:200])
+            run.report_failure("log-format-limits" if big else None, "a log written by n2 does not load: %s" % r[:160], where)
             continue
         kind = k if isinstance(k, str) else k[0]
         stats[kind] += 1
@@ -139,7 +150,11 @@ def main(tier, seed, replay=None):
             last[wb] = (wh, list(wd))
         if kind == "same":
             if p["loaded"] != last:
-                run.report_failure(None, "loaded %r, written (latest per step) %r" % (p["loaded"], last), where)
+                big = any(len(wd) >= 65536 or len(b[wb]) >= 32768 for wb, wd, wh in ws)
+                if big:
+                    where = dict(where, writes="(one record with %d dependencies)" % max(len(wd) for _, wd, _ in ws), file_hex=hexs(f)[:200])
+                run.report_failure("log-format-limits" if big else None,
+                                   "loaded %s, written (latest per step) %s" % (str(p["loaded"])[:200], str(last)[:200]), where)
             if len(ws) >= 2:
                 nontrivial.add(hexs(f)[:64] + str(len(f)))
         elif kind == "perm":
